@@ -385,8 +385,17 @@ func report(id, tier string, seed int, sc *Sidecar, ld *Loaded, sums []*harnessS
 	}
 	ev := Evidence{PropertyID: id, Tier: tier, Seed: seed, Level: "model_checking", Coverage: cov, Assumptions: append([]string{}, sc.Assumptions...), WallS: round1(wall), Violations: nViol}
 	b, _ := json.MarshalIndent(ev, "", " ")
-	os.MkdirAll(filepath.Join(verifDir, "evidence"), 0o755)
-	if err := os.WriteFile(filepath.Join(verifDir, "evidence", id+".json"), b, 0o644); err != nil {
+	// evidence describes a run against /repo; a run against another tree
+	// (GOSYM_REPO: seeded or property-preserving changes in scratch worktrees)
+	// must not overwrite it
+	evDir := filepath.Join(verifDir, "evidence")
+	if d := os.Getenv("GOSYM_EVIDENCE_DIR"); d != "" {
+		evDir = d
+	} else if repoDir != "/repo" {
+		evDir = filepath.Join(os.TempDir(), "gosym-evidence-other-tree")
+	}
+	os.MkdirAll(evDir, 0o755)
+	if err := os.WriteFile(filepath.Join(evDir, id+".json"), b, 0o644); err != nil {
 		die(2, "cannot write evidence: %v", err)
 	}
 	fmt.Printf("%s %s: %d paths (%v), %d decisions, %d assertion queries (%d unsat), %d native replays ok, %d violation(s), %d known, solver %d queries %.1fs, wall %.1fs\n",
